@@ -8,7 +8,8 @@ from debian_inspector import copyright as cr
 
 ID = 'C07'
 LEVEL = 'proof'
-THEOREMS = [('DebInspector.Thm.C07', ['Props.C07.freshName_some', 'Props.C07.addField_ok', 'Props.C07.fromFields_ok'])]
+THEOREMS = [('DebInspector.Thm.C07', ['Props.C07.sound', 'Props.C07.fromText_ok', 'Props.C07.mergeUnknown_ok', 'Props.C07.foldLicense_ok', 'Props.C07.docDumps_cases',
+                                      'Props.C07.freshName_some', 'Props.C07.addField_ok', 'Props.C07.fromFields_ok'])]
 TRUSTED = [
     'Lean 4.33.0 kernel',
     'reading of the property as Props.C07.holdsOn (every entry point returns; repeated calls equal)',
@@ -20,12 +21,15 @@ ASSUMPTIONS = ['texts are str objects without lone surrogates', 'the force of th
 RULE = ('exhaustive line-kind texts (C05 stream); field names that collide with numeric suffixes and internal attribute names '
         '(License-1, Files-1-1, Extra-Data, Line-Numbers-By-Field, Unknown, unknown-1) exhaustively for <= 4 fields over 8 names; MIME-looking headers with bodies, '
         'From lines, colon-only lines; raw Unicode noise. non-trivial = the text has a declaration line')
-TECHNIQUE = ('Lean 4 theorems: the line-tracking parser is total and the field-renaming loop always terminates with a fresh name (the raise points of from_fields are unreachable) '
+TECHNIQUE = ('Lean 4 theorem Props.C07.sound: for every text the model of every lenient entry point returns normally (every explicit raise point of the copyright pipeline is unreachable) '
              '+ exception-type correspondence of the whole pipeline + holdsOn on every observation')
-LEVEL_TEXT = ('Proved in Lean 4: in from_fields the duplicate-renaming loop '
-              'always finds an unused name within |seen|+1 steps (freshName_some - the termination argument that is finding F4), so neither the clash assertion '
-              'nor the index errors of start_line/end_line can fire and building a paragraph of any class from any fields returns normally (addField_ok, fromFields_ok). The rest of the pipeline (merge, fold, to_dict, dumps, is_valid) is a model '
-              'with explicit raise points whose totality is checked by evaluation and by exception-type correspondence on every run, not yet by theorem.')
+LEVEL_TEXT = ('Props.C07.sound: for every Unicode text the model satisfies the property. The model of the copyright pipeline carries every raise point of the Python code explicitly '
+              '(clash assertion and index errors in from_fields, AttributeError on a list value in the merge of unknown paragraphs, KeyError on a missing line range in the fold, ...) and the theorem shows none is reachable: '
+              'the renaming loop always finds an unused name within |seen|+1 steps (freshName_some, the argument that is finding F4) so from_fields returns for any fields (fromFields_ok); every paragraph it builds has string-valued '
+              'extra data with a line range per key, so merging any run of unknown paragraphs returns (mergeUnknown_ok) and keeps a range for every non-empty text, so the fold finds the range it reads (foldLicense_ok, fromText_ok); '
+              'rendering returns (docDumps_cases; the model leaves only non-ASCII field names outside, as OutOfModel). By induction over fields, groups and paragraphs, any number of them. '
+              'The two parsers are total functions in the model (the line-tracking loop has no raise point; the header-style parser rests on the modelled stdlib parser). '
+              'The force of the theorem is the fidelity of the modelled raise points, which the exception-type correspondence measures on every run (exhaustive line-kind texts, name-clash families, MIME-looking paragraphs).')
 LEVEL_NOTE = ('Trusted: Lean kernel; axioms propext, Classical.choice, Quot.sound only; fidelity of the raise points of the hand model; '
               'stdlib email parsing behind get_paragraph_data is observed, not modelled here.')
 
